@@ -1,6 +1,6 @@
 (* C16 — code point count equals the strict UTF-8 count, or 0 for invalid text.
    Only statements; proofs are in theories/PUtf8_proofs.v. *)
-From CB Require Import Word PUtf8 PUtf8_proofs Bridge_utf8d.
+From CB Require Import Word PUtf8 PUtf8_proofs Bridge_utf8d PStream PItem SpecItem PBuild PRound_proofs.
 From CBGen Require Import Gen_utf8d.
 Local Open Scope N_scope.
 
@@ -23,3 +23,35 @@ Example C16_examples :
   spec_codepoints [0xC0; 0x80] = 0 /\ spec_codepoints [0xED; 0xA0; 0x80] = 0 /\
   spec_codepoints [0xE2; 0x82] = 0 /\ bytes_ok [0x61; 0xE2; 0x82; 0xAC].
 Proof. repeat split; try reflexivity. repeat constructor. Qed.
+
+(* byte length and content are preserved either way, and decoding never rejects a text string
+   because of its content: for EVERY payload (valid UTF-8 or not) the decoder returns the definite
+   text string holding exactly those bytes, consuming exactly head + payload, whatever follows;
+   likewise chunk by chunk for indefinite text strings.  Instances of the C03 round trip. *)
+Theorem C16_content_preserved : forall L cap pay rest,
+  bytes_ok pay -> len pay < 2 ^ 64 -> len pay <= cap -> bytes_ok rest ->
+  len (encode_rfc (IText pay) ++ rest) < SIZE_MAX ->
+  load L cap (encode_rfc (IText pay) ++ rest) = LOk (IText pay) (len (encode_rfc (IText pay))).
+Proof.
+  intros L cap pay rest Hb Hl Hc Hr Hs.
+  apply (C03_roundtrip_load L cap (IText pay) rest); [|exact Hr|exact Hs].
+  split; [split; assumption|]. split; [apply N.le_0_l|exact Hc].
+Qed.
+Print Assumptions C16_content_preserved.
+
+Theorem C16_chunks_preserved : forall L cap cs rest, 1 <= L ->
+  Forall (fun d => bytes_ok d /\ len d < 2 ^ 64) cs -> len cs < 2 ^ 64 ->
+  Forall (fun d => len d <= cap) cs -> bytes_ok rest ->
+  len (encode_rfc (ITextI cs) ++ rest) < SIZE_MAX ->
+  load L cap (encode_rfc (ITextI cs) ++ rest) = LOk (ITextI cs) (len (encode_rfc (ITextI cs))).
+Proof.
+  intros L cap cs rest HL Hw Hn Hc Hr Hs.
+  apply (C03_roundtrip_load L cap (ITextI cs) rest); [|exact Hr|exact Hs].
+  split; [split; assumption|]. split; [exact HL|exact Hc].
+Qed.
+Print Assumptions C16_chunks_preserved.
+
+(* non-vacuity: an overlong form and a lone continuation byte are accepted as text, bytes intact *)
+Example C16_invalid_text_accepted :
+  load 4 100 [0x63; 0xC0; 0x80; 0x80; 0xFF] = LOk (IText [0xC0; 0x80; 0x80]) 4.
+Proof. vm_compute. reflexivity. Qed.
